@@ -20,6 +20,11 @@ use model::{CYCLE_FORMS, Case, Expect, FORMS, Family, dags};
 #[derive(Clone, Context)]
 pub struct CtxT {
     pub cv: i32,
+    pub cs: roto::RotoString,
+}
+
+fn the_ctx() -> CtxT {
+    CtxT { cv: model::CV as i32, cs: "ab".into() }
 }
 
 // ------------------------------------------------------------------ units
@@ -31,6 +36,8 @@ enum Places {
     All,
     /// all in `pkg`, alternating (odd positions in `pkg.m`)
     Two,
+    /// the 2^(n-1) placements with node 0 in `pkg`
+    Node0Pkg,
 }
 
 impl Places {
@@ -38,18 +45,21 @@ impl Places {
         match self {
             Places::All => 1 << n,
             Places::Two => 2,
+            Places::Node0Pkg => 1 << (n - 1),
         }
     }
     fn get(self, n: usize, idx: u64) -> u32 {
         match self {
             Places::All => idx as u32,
             Places::Two => [0u32, 0b01010 & ((1 << n) - 1)][idx as usize],
+            Places::Node0Pkg => (idx as u32) << 1,
         }
     }
     fn name(self) -> &'static str {
         match self {
             Places::All => "all 2^n",
             Places::Two => "all in pkg; odd positions in pkg.m",
+            Places::Node0Pkg => "the 2^(n-1) placements with node 0 in pkg",
         }
     }
 }
@@ -76,6 +86,8 @@ struct Slice {
     form: usize,
     places: Places,
     kinds: Kinds,
+    /// index into model::ACCESS (family Ctx; 0 elsewhere)
+    access: usize,
 }
 
 impl Slice {
@@ -127,6 +139,7 @@ impl Unit {
             form: s.form,
             back: None,
             ctx: None,
+            access: s.access,
         };
         match s.family {
             Family::Dag => {}
@@ -148,11 +161,22 @@ impl Unit {
 fn slices(tier: Tier) -> Vec<Slice> {
     let mut v = vec![];
     let all_forms: Vec<usize> = (0..FORMS.len()).collect();
-    let mut push = |family, n, forms: &[usize], places| {
+    let mut push_a = |family, n, forms: &[usize], places, access| {
         for f in forms {
-            v.push(Slice { family, n, form: *f, places, kinds: Kinds::All });
+            v.push(Slice { family, n, form: *f, places, kinds: Kinds::All, access });
         }
     };
+    // the context read written in every other access form (the reference form and
+    // the placements are restricted for these)
+    for n in 1..=3 {
+        for a in 1..model::ACCESS.len() {
+            match tier {
+                Tier::Quick => push_a(Family::Ctx, n, &[model::F_BARE], Places::Two, a),
+                Tier::Thorough => push_a(Family::Ctx, n, &all_forms, Places::Two, a),
+            }
+        }
+    }
+    let mut push = |family, n, forms: &[usize], places| push_a(family, n, forms, places, 0);
     // complete part: n <= 3 (quick), n <= 4 for the dag family (thorough)
     for n in 1..=3 {
         push(Family::Dag, n, &all_forms, Places::All);
@@ -161,7 +185,8 @@ fn slices(tier: Tier) -> Vec<Slice> {
     }
     match tier {
         Tier::Quick => {
-            push(Family::Dag, 4, &[model::F_BARE], Places::All);
+            // (budget: the other half of the placements, node 0 in pkg.m, is thorough only)
+            push(Family::Dag, 4, &[model::F_BARE], Places::Node0Pkg);
         }
         Tier::Thorough => {
             push(Family::Dag, 4, &all_forms, Places::All);
@@ -243,6 +268,8 @@ fn finish_compile<P>(r: Result<Result<P, RotoReport>, String>) -> Compiled<P> {
 trait Env {
     type Pkg;
     fn compile(&self, pkg: &str, m: &str) -> Compiled<Self::Pkg>;
+    /// parse and type check only (the stage that has to reject)
+    fn typecheck_only(&self, pkg: &str, m: &str) -> Compiled<()>;
     fn call0(p: &mut Self::Pkg, name: &str) -> Result<i32, String>;
     fn call1(p: &mut Self::Pkg, name: &str, d: i32) -> Result<i32, String>;
 }
@@ -250,17 +277,14 @@ trait Env {
 struct Plain(Runtime<NoCtx>);
 struct WithCtx(Runtime<Ctx<CtxT>>);
 
-impl WithCtx {
-    /// parse and type check only (the stage that has to reject)
-    fn typecheck_only(&self, pkg: &str, m: &str) -> Compiled<()> {
-        finish_compile(catch(|| tree(pkg, m).parse().and_then(|p| p.typecheck(&self.0).map(|_| ()))))
-    }
-}
 
 impl Env for Plain {
     type Pkg = Package<NoCtx>;
     fn compile(&self, pkg: &str, m: &str) -> Compiled<Self::Pkg> {
         finish_compile(catch(|| tree(pkg, m).compile(&self.0)))
+    }
+    fn typecheck_only(&self, pkg: &str, m: &str) -> Compiled<()> {
+        finish_compile(catch(|| tree(pkg, m).parse().and_then(|p| p.typecheck(&self.0).map(|_| ()))))
     }
     fn call0(p: &mut Self::Pkg, name: &str) -> Result<i32, String> {
         match catch(|| p.get_function::<fn() -> i32>(name)) {
@@ -283,8 +307,11 @@ impl Env for WithCtx {
     fn compile(&self, pkg: &str, m: &str) -> Compiled<Self::Pkg> {
         finish_compile(catch(|| tree(pkg, m).compile(&self.0)))
     }
+    fn typecheck_only(&self, pkg: &str, m: &str) -> Compiled<()> {
+        finish_compile(catch(|| tree(pkg, m).parse().and_then(|p| p.typecheck(&self.0).map(|_| ()))))
+    }
     fn call0(p: &mut Self::Pkg, name: &str) -> Result<i32, String> {
-        let mut c = CtxT { cv: model::CV as i32 };
+        let mut c = the_ctx();
         match catch(|| p.get_function::<fn() -> i32>(name)) {
             Ok(Ok(f)) => Ok(f.call(&mut c)),
             Ok(Err(e)) => Err(format!("get_function: {e}")),
@@ -292,7 +319,7 @@ impl Env for WithCtx {
         }
     }
     fn call1(p: &mut Self::Pkg, name: &str, d: i32) -> Result<i32, String> {
-        let mut c = CtxT { cv: model::CV as i32 };
+        let mut c = the_ctx();
         match catch(|| p.get_function::<fn(i32) -> i32>(name)) {
             Ok(Ok(f)) => Ok(f.call(&mut c, d)),
             Ok(Err(e)) => Err(format!("get_function: {e}")),
@@ -314,7 +341,7 @@ fn case_json(c: &Case) -> Value {
         "place": place,
         "form": FORMS[c.form],
         "back_edge": c.back.map(|(u, v)| format!("{u}->{v}")),
-        "ctx_read": c.ctx.map(|(x, k)| json!({"node": x, "through_functions": k})),
+        "ctx_read": c.ctx.map(|(x, k)| json!({"node": x, "through_functions": k, "access": model::ACCESS[c.access]})),
         "expect": format!("{exp:?}"),
         "pkg.roto": pkg,
         "m.roto": m,
@@ -356,12 +383,51 @@ fn run_case<E: Env>(env: &E, c: &Case, sub: u64, cx: &mut Cx) {
         &format!("cases:{}:{}", c.family.name(), if expect == Expect::Accept { "accept" } else { "reject" }),
         1,
     );
+    if c.family == Family::Ctx {
+        cx.set("ctx_access", c.access as u64);
+    }
     host::clear_log();
-    let compiled = env.compile(&pkg, &m);
-    let log = host::take_log();
     cx.transitions(1);
     cx.validated(1);
     let mut outcome = mix(0x14, expect.clone() as u64);
+    if expect == Expect::RejectCtx {
+        // A wrongly accepted program would run a context read with a null context
+        // when compiled in full, so acceptance is judged at the stage that has to
+        // reject: parse + type check (exactly what a full compile does up to there).
+        let r = env.typecheck_only(&pkg, &m);
+        let log = host::take_log();
+        match r {
+            Compiled::Panic(msg) => {
+                cx.violation("panic", sub, case_json(c), json!("RejectCtx without a panic"), json!(msg))
+            }
+            Compiled::Ok(()) => cx.violation(
+                "accepted",
+                sub,
+                case_json(c),
+                json!("RejectCtx: a compile error before any constant is evaluated"),
+                json!({"type_checked": true}),
+            ),
+            Compiled::Report(rep, kinds) => {
+                cx.count(&format!("reject: {}", normalise(&rep)), 1);
+                if kinds.iter().any(|k| *k != "type") || kinds.is_empty() {
+                    cx.violation("reject_not_type_error", sub, case_json(c), json!("type error"), json!(rep));
+                }
+                if !log.is_empty() {
+                    cx.violation(
+                        "evaluated_before_reject",
+                        sub,
+                        case_json(c),
+                        json!("no constant initialiser runs when the program is rejected"),
+                        json!({"log": marks(&log), "report": rep}),
+                    );
+                }
+                cx.outcome(outcome);
+            }
+        }
+        return;
+    }
+    let compiled = env.compile(&pkg, &m);
+    let log = host::take_log();
 
     let mut p = match (compiled, &expect) {
         (Compiled::Panic(msg), _) => {
@@ -519,6 +585,7 @@ fn ccase_json(c: &CCase) -> Value {
         "declaration_order": decl,
         "symbol_order": by_symbol.into_iter().map(|x| x.1).collect::<Vec<_>>(),
         "name_set": c.set,
+        "ctx_access": model::ACCESS[c.access],
         "expect": if c.expect_reject() { "RejectCtx" } else { "Accept" },
         "pkg.roto": c.source(),
         "m.roto": "",
@@ -542,6 +609,7 @@ fn run_ccase(env: &WithCtx, c: &CCase, sub: u64, cx: &mut Cx) {
     cx.set("cycctx_symbol_orders", mix(c.config as u64, c.sigma.iter().fold(0, |a, x| a * 8 + *x as u64)));
     cx.set("cycctx_decl_orders", mix(c.config as u64, c.perm.iter().fold(0, |a, x| a * 8 + *x as u64)));
     cx.set("cycctx_name_sets", c.set as u64);
+    cx.set("cycctx_access", c.access as u64);
     host::clear_log();
     cx.transitions(1);
     cx.validated(1);
@@ -733,19 +801,22 @@ impl Check for C14 {
             .map(|s| {
                 json!({"family": s.family.name(), "n": s.n, "form": FORMS[s.form],
                        "labelled_dags": model::DAG_COUNTS[s.n], "kinds": "all 2^n",
+                       "context_access": if s.family == Family::Ctx { Some(model::ACCESS[s.access]) } else { None },
                        "placements": s.places.name()})
             })
             .collect();
         Meta {
-            rule: "every labelled DAG on n declaration positions x constant/function per node x module (pkg / pkg.m) per node x reference form (family dag); x every back edge (u,v) with v reaching u or u == v (family cycle); x every node x k in 0..=2 functions between the node and the context variable (family ctx). A dag-family program is non-trivial when some constant transitively depends on another constant (its evaluation order is constrained); every cycle/ctx program is non-trivial by construction. Family cycctx: ring of L in {2,3} mutually recursive functions, one context read attached to ring member c0 directly or through 1-2 non-cycle functions (or detached from the ring), one constant entering the ring through each member in turn / calling each non-cycle function / mentioning nothing, x every declaration order of the k <= 5 items x every relative order of their interned names (k! assignments of spellings lying in pairwise different symbol shards) x name set (see bounds.cycctx for the per-tier pairing); every cycctx program is non-trivial".into(),
+            rule: "every labelled DAG on n declaration positions x constant/function per node x module (pkg / pkg.m) per node x reference form (family dag); x every back edge (u,v) with v reaching u or u == v (family cycle); x every node x k in 0..=2 functions between the node and the context variable (family ctx). A dag-family program is non-trivial when some constant transitively depends on another constant (its evaluation order is constrained); every cycle/ctx program is non-trivial by construction. In the ctx and cycctx families the one context read is additionally written in each access form of bounds.context_access_forms (method call on the context variable with and without arguments, as f-string receiver, call argument, operand, parenthesised receiver, method argument). Family cycctx: ring of L in {2,3} mutually recursive functions, one context read attached to ring member c0 directly or through 1-2 non-cycle functions (or detached from the ring), one constant entering the ring through each member in turn / calling each non-cycle function / mentioning nothing, x every declaration order of the k <= 5 items x every relative order of their interned names (k! assignments of spellings lying in pairwise different symbol shards) x name set (see bounds.cycctx for the per-tier pairing); every cycctx program is non-trivial".into(),
             assumptions: vec![
                 "constants and functions are i32-valued; each constant is e(10^i) + sum of its references, each function 10^i + sum of its references".into(),
                 "two modules (pkg and pkg.m); helper, getter and context-reading functions are declared after the enumerated nodes of their module".into(),
                 "the cycle family leaves out the two string-valued forms (fstring, method): function values depend on the depth parameter there".into(),
                 "no order is demanded among constants that do not depend on each other".into(),
+                "programs predicted RejectCtx are parsed and type checked only (a wrongly accepted one would read a null context when compiled in full); field access on a context variable is not enumerated: context fields must be registered host types, which have no script-visible fields".into(),
                 "cycctx programs predicted to be rejected are parsed and type checked only (the rejecting stage); accepted ones are compiled and run in full".into(),
             ],
-            bounds: json!({"slices": sl, "forms": FORMS, "context_distance_k": [0, 1, 2],
+            bounds: json!({"slices": sl, "forms": FORMS, "context_distance_k": [0, 1, 2], "context_access_forms": model::ACCESS,
+                           "context_type": "{ cv: i32 = 100000, cs: String = \"ab\" }",
                            "recursion_depths_called": [0, 1, 2],
                            "cycctx": {
                                "configurations (cycle length, hops, attached)": match cfg.tier {
@@ -777,6 +848,7 @@ impl Check for C14 {
                     perm: (0..k).rev().collect(),
                     sigma: (0..k).rev().collect(),
                     set,
+                    access: (config * cycctx::N_SETS + set) % model::ACCESS.len(),
                 };
                 match env.compile(&c.source(), "") {
                     Compiled::Ok(_) => {}
@@ -807,7 +879,12 @@ impl Check for C14 {
         if agg.set_len("cycctx_name_sets") != cycctx::N_SETS as u64 && agg.machinery_errors.is_empty() && agg.crashes == 0 {
             agg.machinery_errors.push("cycctx: not every name set was used".into());
         }
-        for k in ["cycctx_symbol_orders", "cycctx_decl_orders", "cycctx_name_sets"] {
+        for what in ["cycctx_access", "ctx_access"] {
+            if agg.set_len(what) != model::ACCESS.len() as u64 && agg.machinery_errors.is_empty() && agg.crashes == 0 {
+                agg.machinery_errors.push(format!("{what}: not every access form of the context read occurred"));
+            }
+        }
+        for k in ["cycctx_symbol_orders", "cycctx_decl_orders", "cycctx_name_sets", "cycctx_access", "ctx_access"] {
             let n = agg.set_len(k);
             agg.counters.insert(format!("{k}_seen"), n);
         }
